@@ -43,6 +43,7 @@ var (
 	c07V1   = []c07Rule{{"a", 9, "1a"}, {"b", 7, "1b"}, {"c", 5, "1c"}, {"d", 3, "1d"}}
 	c07Full = []c07Rule{{"a", 9, "2a"}, {"b", 7, "2b"}, {"c", 5, "2c"}, {"f", 3, "2f"}}
 	c07Incr = []c07Rule{{"b", 7, "3b"}, {"e", 1, "3e"}}
+	c07Move = []c07Rule{{"a", 2, "5a"}, {"c", 8, "5c"}} // one incremental call moving two existing rules past their neighbours
 	c07Rm   = []string{"a"}
 	c07Dag  = [][]string{{"a", "b"}, {"c", "d", "e", "f"}}
 )
@@ -53,6 +54,8 @@ func c07ApplyRef(s ref.RuleSet, kind string) ref.RuleSet {
 		return ref.Replace(s, c07Set(c07Full))
 	case "incr":
 		return ref.Merge(s, c07Set(c07Incr))
+	case "incrmove":
+		return ref.Merge(s, c07Set(c07Move))
 	case "remove":
 		return ref.Remove(s, c07Rm)
 	case "full0": // a full update with the text the pool was constructed from
@@ -67,6 +70,8 @@ func c07ApplyPool(gp *engine.GenginePool, kind string) error {
 		return gp.UpdatePooledRules(c07Text(c07Full))
 	case "incr":
 		return gp.UpdatePooledRulesIncremental(c07Text(c07Incr))
+	case "incrmove":
+		return gp.UpdatePooledRulesIncremental(c07Text(c07Move))
 	case "remove":
 		return gp.RemoveRules(c07Rm)
 	case "full0":
@@ -413,6 +418,24 @@ func c07Configs(thorough bool) (cfgs []c07Cfg, bounds []int) {
 				bounds = append(bounds, 1)
 			}
 		}
+		// an incremental call that changes the saliences of two installed rules (the sorted list is
+		// rearranged while an execution may be walking it)
+		if m == "sort" || m == "ncmsort" || m == "nsortmc" || m == "selected" || thorough {
+			bb := b
+			if !seqModel {
+				bb = b - 1
+			}
+			cfgs = append(cfgs, c07Cfg{Updates: []string{"incrmove"}, Execs: []string{m}})
+			bounds = append(bounds, bb)
+			if m == "sort" {
+				cfgs = append(cfgs, c07Cfg{Updates: []string{"incrmove"}, Execs: []string{m, m}, After: true})
+				bounds = append(bounds, 1)
+				cfgs = append(cfgs, c07Cfg{Updates: []string{"incrmove"}, Updates2: []string{"incr"}, Execs: []string{m, m}})
+				bounds = append(bounds, b)
+				cfgs = append(cfgs, c07Cfg{Updates: []string{"remove", "incrmove"}, Execs: []string{m}})
+				bounds = append(bounds, b)
+			}
+		}
 		// one client issuing two executions in a row against one update: the second one may start after
 		// the update returned, on the instance that served the first one while the update was under way
 		if m == "sort" || m == "specified" || thorough {
@@ -455,7 +478,7 @@ func init() {
 		BudgetQuick: 300 * time.Second,
 		BudgetThor:  30 * time.Minute,
 		Kind:        "schedules",
-		Rule: "pool (1,2), version-tagged rule sets whose versions differ in tags and membership; updater thread performing 1-2 updates from {full, incremental, removal, a full update that does not compile (must fail and change nothing) followed by an incremental update / removal, a full update with the text the pool was built from after a removal} against 1-2 executions in each of 10 pool execution paths {sort, concurrent, mix, inverse-mix, N-sort-M-conc, N-conc-M-sort, N-conc-M-conc, DAG (2 layers), selected, configured-model}, every schedule with <=2 (thorough: 3 for the sort model, and all configurations for all ten paths) deviations from the default scheduler (delay bounding: a preemption, or running another thread than the lowest-numbered enabled one when the running thread blocks or ends); an update triggered from inside a running rule; executions started after the update returned (both instances); one client issuing two executions in a row while an update is under way (instance reuse); two update calls racing with each other, executions afterwards (they must run what some serial order of the calls installs). " +
+		Rule: "pool (1,2), version-tagged rule sets whose versions differ in tags and membership; updater thread performing 1-2 updates from {full, incremental, an incremental call that changes the saliences of two installed rules, removal, a full update that does not compile (must fail and change nothing) followed by an incremental update / removal, a full update with the text the pool was built from after a removal} against 1-2 executions in each of 10 pool execution paths {sort, concurrent, mix, inverse-mix, N-sort-M-conc, N-conc-M-sort, N-conc-M-conc, DAG (2 layers), selected, configured-model}, every schedule with <=2 (thorough: 3 for the sort model, and all configurations for all ten paths) deviations from the default scheduler (delay bounding: a preemption, or running another thread than the lowest-numbered enabled one when the running thread blocks or ends); an update triggered from inside a running rule; executions started after the update returned (both instances); one client issuing two executions in a row while an update is under way (instance reuse); two update calls racing with each other, executions afterwards (they must run what some serial order of the calls installs). " +
 			"Oracle (regular-register history check on the global call/return log): each execution's result map equals the reference result of exactly ONE snapshot, that snapshot is not older than the last update that returned before the execution was called and not newer than the last update called before it returned; no panic, no deadlock",
 		Assume: []string{"sequentially consistent memory", "nothing is demanded about the relative order of two overlapping executions"},
 		Run: func(c *hx.Ctx) {
